@@ -163,14 +163,53 @@ func init() {
 		Doc:   "at every persistFooter(f, w) call the crc field of f was assigned, on the dominating path, the running CRC (Sum32/crc of a countHashWriter) of the very countHashWriter through which every data byte of that output was written in the calling function; a CRC parsed from a file footer or carried in a shared footer never seeds it; the footer writer is the same writer or a buffered wrapper flushed afterwards on the same destination (data is never left in a buffer while the footer bypasses it)",
 		Run: func(c *Ctx, scope string, r *Report) {
 			pf := c.MustFn("persistFooter")
+			// the places where a file is sealed: the calls of persistFooter, or - when a thin helper
+			// seeds the crc from a hashing writer it is handed and then calls persistFooter with its
+			// own parameters - the calls of that helper
+			type sealSite struct {
+				site     ssa.CallInstruction
+				fp, wArg ssa.Value
+				cw       ssa.Value // the writer whose running CRC seeds the footer, when already known
+			}
+			var seals []sealSite
 			for _, site := range c.callsTo(pf) {
-				fn := site.Parent()
-				key := fnName(fn) + "/persistFooter"
 				fp := argOfType(site.Common(), "*"+rootPkgPath+".footer")
 				wArg := argOfType(site.Common(), "io.Writer")
 				if fp == nil || wArg == nil {
 					fp, wArg = site.Common().Args[0], site.Common().Args[1]
 				}
+				h := site.Parent()
+				lifted := false
+				if fpp, ok := fp.(*ssa.Parameter); ok {
+					wv := wArg
+					if mi, ok := wv.(*ssa.MakeInterface); ok {
+						wv = mi.X
+					}
+					if wpp, ok := wv.(*ssa.Parameter); ok {
+						var seed *ssa.Store
+						for _, st := range storesToFieldOf(h, fp, "crc") {
+							if before(st, site) {
+								seed = st
+							}
+						}
+						if seed != nil {
+							if cw, ok := isSum32Of(seed.Val); ok && cw == ssa.Value(wpp) && len(c.callsTo(h)) > 0 {
+								for _, hs := range c.callsTo(h) {
+									seals = append(seals, sealSite{hs, argFor(hs.Common(), fpp), argFor(hs.Common(), wpp), argFor(hs.Common(), wpp)})
+								}
+								lifted = true
+							}
+						}
+					}
+				}
+				if !lifted {
+					seals = append(seals, sealSite{site, fp, wArg, nil})
+				}
+			}
+			for _, seal := range seals {
+				site, fp, wArg := seal.site, seal.fp, seal.wArg
+				fn := site.Parent()
+				key := fnName(fn) + "/persistFooter"
 				// Design B: persistFooter is handed a *countHashWriter and continues ITS running
 				// CRC (it never reads footer.crc).  Then what matters is that this writer is the
 				// one all data went through, or a fresh one whose crc was set from that writer.
@@ -247,6 +286,47 @@ func init() {
 						seed = st
 					}
 				}
+				var cw ssa.Value
+				var seedPos ssa.Instruction = site
+				if seal.cw != nil {
+					// seeded by the sealing helper from the writer it is handed
+					cw = seal.cw
+					goto haveWriter
+				}
+				if seed == nil && n == 0 {
+					// Design C: the function that writes the data sections is handed the hashing writer
+					// and returns the complete footer, crc included
+					if ex, ok := fp.(*ssa.Extract); ok {
+						if gcall, ok := ex.Tuple.(*ssa.Call); ok && gcall.Call.StaticCallee() != nil && c.inRoot(gcall.Call.StaticCallee()) && before(gcall, site) {
+							wp, why := calleeSeed(c, gcall.Call.StaticCallee(), ex.Index, 0)
+							if wp == nil {
+								r.bad(key, fnName(fn), c.pos(site.Pos()), "the footer comes from "+fnName(gcall.Call.StaticCallee())+", which does not hand back a crc that covers what it wrote: "+why)
+								continue
+							}
+							cwc, isCall := argFor(&gcall.Call, wp).(*ssa.Call)
+							if !isCall || cwc.Call.StaticCallee() == nil || fnName(cwc.Call.StaticCallee()) != "newCountHashWriter" {
+								r.undecided(key, fnName(fn), c.pos(site.Pos()), "the hashing writer handed to "+fnName(gcall.Call.StaticCallee())+" is not created in this function")
+								continue
+							}
+							// the footer is written behind that writer's data: same destination
+							_, fctors, fbase := writerChain(wArg)
+							_, _, base := writerChain(cwc)
+							through := false
+							for _, ct := range fctors {
+								if ct == ssa.Value(cwc) {
+									through = true
+								}
+							}
+							if fbase != base {
+								r.bad(key, fnName(fn), c.pos(site.Pos()), "the footer is written to a different destination than the data")
+							} else {
+								_ = through
+								r.ok(key, fnName(fn), c.pos(site.Pos()), fnName(gcall.Call.StaticCallee())+" returns the footer with crc = the running CRC of the hashing writer it was handed, taken after its last write")
+							}
+							continue
+						}
+					}
+				}
 				if seed == nil {
 					r.bad(key, fnName(fn), c.pos(site.Pos()), "the footer passed to persistFooter has no crc assignment on the path to the call in this function: its crc is whatever the footer object carried (for a loaded segment that is the CRC of the whole file, not of the data)")
 					continue
@@ -257,15 +337,20 @@ func init() {
 				}
 				// footer object must be function-private (fresh) — a shared footer can be overwritten concurrently
 				// (2) value is Sum32()/crc of a countHashWriter
-				cw, ok := isSum32Of(seed.Val)
-				if !ok {
-					r.bad(key, fnName(fn), c.pos(seed.Pos()), "footer crc is seeded from "+seed.Val.String()+", not from the running CRC of a countHashWriter")
-					continue
+				{
+					var ok bool
+					cw, ok = isSum32Of(seed.Val)
+					if !ok {
+						r.bad(key, fnName(fn), c.pos(seed.Pos()), "footer crc is seeded from "+seed.Val.String()+", not from the running CRC of a countHashWriter")
+						continue
+					}
+					seedPos = seed
 				}
+			haveWriter:
 				// (3) cw is a countHashWriter created in this function
 				cwCall, ok := cw.(*ssa.Call)
 				if !ok || cwCall.Call.StaticCallee() == nil || fnName(cwCall.Call.StaticCallee()) != "newCountHashWriter" {
-					r.undecided(key, fnName(fn), c.pos(seed.Pos()), "the hashing writer is not created in this function: "+cw.String())
+					r.undecided(key, fnName(fn), c.pos(seedPos.Pos()), "the hashing writer is not created in this function: "+cw.String())
 					continue
 				}
 				// (4) every other writer-consuming call before persistFooter uses cw (no data bypasses the hash)
@@ -682,6 +767,13 @@ func init() {
 				if !isNilConst(resolveLoad(ret.Results[1])) {
 					continue // error return: the count is advisory
 				}
+				// (or Count() of the one hashing writer that carried both the data and the footer)
+				if call, isCall := stripConv(resolveLoad(ret.Results[0])).(*ssa.Call); isCall && call.Call.StaticCallee() != nil && fnName(call.Call.StaticCallee()) == "(*countHashWriter).Count" {
+					if fw := c.sealWriterIn(fn); fw != nil && call.Call.Args[0] == fw && dataThrough(fn, fw) {
+						good++
+						continue
+					}
+				}
 				bin, ok := resolveLoad(ret.Results[0]).(*ssa.BinOp)
 				if !ok || bin.Op != token.ADD || dataN == nil {
 					bad = "success return does not compute data bytes + footerLen"
@@ -718,6 +810,9 @@ func init() {
 						footerW = ctors[0]
 					}
 				}
+			}
+			if footerW == nil {
+				footerW = c.sealWriterIn(fn)
 			}
 			ok := false
 			for _, b := range fn.Blocks {
@@ -1011,4 +1106,166 @@ func setThroughPointerTable(c *Ctx, parse *ssa.Function, owner *types.TypeName, 
 		}
 	}
 	return n > 0
+}
+
+// calleeSeed: on every return of g that may report success, result idx is a
+// footer built in g (or handed back by a function g calls with the same
+// writer) whose crc field was stored the running CRC of one writer parameter
+// of g, after the last call that is handed that writer.  Returns that
+// parameter, or nil and the reason.
+func calleeSeed(c *Ctx, g *ssa.Function, idx int, depth int) (*ssa.Parameter, string) {
+	if depth > 2 || g.Blocks == nil {
+		return nil, "too deep"
+	}
+	var wp *ssa.Parameter
+	nret := 0
+	for _, rb := range maySucceedReturns(g) {
+		ret := rb.Instrs[len(rb.Instrs)-1].(*ssa.Return)
+		if idx >= len(ret.Results) {
+			return nil, "result missing"
+		}
+		v := resolveLoad(ret.Results[idx])
+		if isNilConst(v) {
+			continue
+		}
+		nret++
+		var got *ssa.Parameter
+		switch x := v.(type) {
+		case *ssa.Extract:
+			hc, ok := x.Tuple.(*ssa.Call)
+			if !ok || hc.Call.StaticCallee() == nil || !c.inRoot(hc.Call.StaticCallee()) {
+				return nil, "the footer returned at " + c.pos(ret.Pos()) + " comes from an unknown call"
+			}
+			hp, why := calleeSeed(c, hc.Call.StaticCallee(), x.Index, depth+1)
+			if hp == nil {
+				return nil, why
+			}
+			p, ok := argFor(&hc.Call, hp).(*ssa.Parameter)
+			if !ok || p.Parent() != g {
+				return nil, fnName(hc.Call.StaticCallee()) + " is not handed the writer " + fnName(g) + " was given"
+			}
+			got = p
+		default:
+			// a footer object of g: one crc store that dominates the return
+			var seed *ssa.Store
+			for _, st := range storesToFieldOf(g, v, "crc") {
+				if st.Block() == rb || st.Block().Dominates(rb) {
+					seed = st
+				}
+			}
+			if seed == nil {
+				return nil, "the footer returned at " + c.pos(ret.Pos()) + " has no crc assignment on the way"
+			}
+			cw, ok := isSum32Of(seed.Val)
+			if !ok {
+				return nil, "its crc is " + seed.Val.String() + ", not the running CRC of a hashing writer"
+			}
+			p, ok := cw.(*ssa.Parameter)
+			if !ok {
+				return nil, "the crc is taken from a writer that is not the one handed to " + fnName(g)
+			}
+			// taken after the last write: no call that is handed the writer can run between the
+			// capture (the Sum32 call / load) and the return
+			var capture ssa.Instruction = seed
+			if ci, ok := seed.Val.(ssa.Instruction); ok {
+				capture = ci
+			}
+			for _, b := range g.Blocks {
+				for _, ins := range b.Instrs {
+					ci, ok := ins.(ssa.CallInstruction)
+					if !ok || ins == capture {
+						continue
+					}
+					uses := false
+					for _, a := range ci.Common().Args {
+						if a == ssa.Value(p) {
+							uses = true
+						}
+						if mi, ok := a.(*ssa.MakeInterface); ok && mi.X == ssa.Value(p) {
+							uses = true
+						}
+					}
+					if sc := ci.Common().StaticCallee(); sc != nil && (sc.Name() == "Sum32" || sc.Name() == "Count") {
+						uses = false
+					}
+					if uses && canExecuteAfter(capture, ins) && (ins.Block() == rb || canExecuteAfter(ins, ret)) {
+						return nil, "the crc is captured at " + c.pos(capture.Pos()) + " before the call at " + c.pos(ins.Pos()) + " that still writes through the same writer: those bytes are not covered"
+					}
+				}
+			}
+			got = p
+		}
+		if wp != nil && got != wp {
+			return nil, "different writers on different returns"
+		}
+		wp = got
+	}
+	if nret == 0 {
+		return nil, "no successful return hands back a footer"
+	}
+	return wp, ""
+}
+
+// sealWriterIn: the hashing writer (its constructor call) through which fn
+// writes the footer - the writer argument of its persistFooter call, or of its
+// call of a helper that hands its own writer parameter on to persistFooter.
+func (c *Ctx) sealWriterIn(fn *ssa.Function) ssa.Value {
+	pf := c.MustFn("persistFooter")
+	writerOf := func(cc *ssa.CallCommon) ssa.Value {
+		for _, a := range cc.Args {
+			if isWriterLike(a.Type()) || strings.HasSuffix(a.Type().String(), ".countHashWriter") {
+				if _, ctors, _ := writerChain(a); len(ctors) > 0 {
+					return ctors[0]
+				}
+			}
+		}
+		return nil
+	}
+	for _, site := range c.callsTo(pf) {
+		if site.Parent() == fn {
+			return writerOf(site.Common())
+		}
+		h := site.Parent()
+		// h hands a parameter on
+		wv := argOfType(site.Common(), "io.Writer")
+		if mi, ok := wv.(*ssa.MakeInterface); ok {
+			wv = mi.X
+		}
+		if wp, ok := wv.(*ssa.Parameter); ok {
+			for _, hs := range c.callsTo(h) {
+				if hs.Parent() == fn {
+					if _, ctors, _ := writerChain(argFor(hs.Common(), wp)); len(ctors) > 0 {
+						return ctors[0]
+					}
+				}
+			}
+		}
+	}
+	return nil
+}
+
+// dataThrough: fn writes the segment's data (Data.WriteTo) through the writer made by ctor.
+func dataThrough(fn *ssa.Function, ctor ssa.Value) bool {
+	for _, b := range fn.Blocks {
+		for _, ins := range b.Instrs {
+			call, ok := ins.(*ssa.Call)
+			if !ok {
+				continue
+			}
+			if sc := call.Call.StaticCallee(); sc != nil && funcFullName(sc) == "github.com/blugelabs/bluge_segment_api.(*Data).WriteTo" {
+				for _, a := range call.Call.Args {
+					if !isWriterLike(a.Type()) {
+						continue
+					}
+					_, ctors, _ := writerChain(a)
+					for _, ct := range ctors {
+						if ct == ctor {
+							return true
+						}
+					}
+				}
+			}
+		}
+	}
+	return false
 }
